@@ -55,6 +55,13 @@ def plan_for(tier: str, seed: int, i: int) -> dict:
     op = rng.choice(["multiget", "multiget", "walk", "bulkget"])
     if proto["version"] == "v1" and op == "bulkget":
         op = "multiget"
+    if op == "multiget" and proto["version"] != "v1":
+        # an agent may bind any of the three exception markers to a name in a GET response (endOfMibView there is
+        # unusual, yet it is a well-formed value): each must reach the caller as what it is, in its position
+        krng = rng_for(seed, ID, tier + ":markers", i)
+        for o in keys:
+            if krng.random() < 0.08:
+                mib[o] = (krng.choice(["eom", "nso", "nsi"]), None)
     oids = [rng.choice(keys) if rng.random() < 0.85 else base + (9, 9) for _ in range(rng.choice([0, 1, 2, 5, 20, 60]))]
     forms = rng.choice([[0], [0, 1], [1], [1, 2], [0, 1, 2, 3, 4], [4], [2, 3]])
     return {"prop": ID, "proto": proto, "mib": sorted(mib.items()), "op": op, "oids": oids, "root": base,
